@@ -170,4 +170,15 @@ def validTrace (l : List Ev) (complete : Bool) : Bool :=
     else true
   perChan && fifoW && fifoD && noDup && fin
 
+/-- orders at the end of a frame that the pipeline also guarantees (proved for every schedule in
+`Props.C08trace.W.trace_tail`): no submit after the sentinel was queued; after `done` only releases -/
+def tailOK : List Ev → Bool
+  | [] => true
+  | .sentinel _ :: l => l.all (fun e => match e with | .submit _ => false | _ => true) && tailOK l
+  | .done _ :: l => l.all (fun e => match e with | .released _ => true | _ => false)
+  | _ :: l => tailOK l
+
+/-- the check applied to recorded traces -/
+def validTraceStrict (l : List Ev) (complete : Bool) : Bool := validTrace l complete && tailOK l
+
 end Lz4V.Model.PipeW
